@@ -307,7 +307,25 @@ func judgeTod(c TodCase) *eng.Fail {
 	if f[7] != t.Unix()*1000 {
 		return eng.F("C19/useTimezone-instant", "useTimezone(%s, %q) changed the instant: millSecond %d, before %d", what, c.Target, f[7], t.Unix()*1000)
 	}
-	return checkFields(target, fmt.Sprintf("useTimezone(%s, %q)", what, c.Target), f, t.Unix()+offsetAt(target, t.Unix()))
+	tl := t.Unix() + offsetAt(target, t.Unix())
+	if fl := checkFields(target, fmt.Sprintf("useTimezone(%s, %q)", what, c.Target), f, tl); fl != nil {
+		return fl
+	}
+	// the same instant rendered in the target zone (and again in its own zone afterwards)
+	ty, tmo, td := civilFromDays(floorDiv(tl, 86400))
+	tsod := floorMod(tl, 86400)
+	oy, omo, od := civilFromDays(floorDiv(local, 86400))
+	o2, perr2 := evalWith("[timeFormat(useTimezone(t, z), '2006-01-02 15:04:05'), timeFormat(t, '2006-01-02 15:04:05'), timeFormat(useTimezone(t, z), '15:04')]", data)
+	if perr2 != nil || o2.panicked || o2.err != nil {
+		return eng.F("C19/eval", "timeFormat(useTimezone(..)): %v %v %s", perr2, o2.err, o2.panicMsg)
+	}
+	arr, _ := o2.val.([]interface{})
+	wantT := fmt.Sprintf("%04d-%02d-%02d %02d:%02d:%02d", ty, tmo, td, tsod/3600, tsod%3600/60, tsod%60)
+	wantO := fmt.Sprintf("%04d-%02d-%02d %02d:%02d:%02d", oy, omo, od, c.H, c.Mi, c.S)
+	if len(arr) != 3 || arr[0] != interface{}(wantT) || arr[1] != interface{}(wantO) || arr[2] != interface{}(wantT[11:16]) {
+		return eng.F("C19/timeFormat-zone", "the instant %s rendered in %q and in its own zone gives %s, expected [%q, %q, %q]", what, c.Target, show(o2.val), wantT, wantO, wantT[11:16])
+	}
+	return nil
 }
 
 func judgeClock() *eng.Fail {
